@@ -165,6 +165,25 @@ impl PoolView {
     pub fn index_of(&self, denom: &str) -> Option<usize> {
         self.info.assets.iter().position(|c| c.denom == denom)
     }
+    /// index of `denom` in the creation-time order (the order `asset_decimals` refers to)
+    pub fn canon_index(&self, denom: &str) -> Option<usize> {
+        self.info.asset_denoms.iter().position(|d| d == denom)
+    }
+    /// reserves given as (denom, amount) pairs -> amounts in creation-time order
+    pub fn canon(&self, res: &[(String, u128)]) -> Vec<u128> {
+        self.info
+            .asset_denoms
+            .iter()
+            .map(|d| res.iter().find(|(k, _)| k == d).map(|(_, a)| *a).unwrap_or(0))
+            .collect()
+    }
+    /// current reserves in creation-time order
+    pub fn canon_reserves(&self) -> Vec<u128> {
+        self.info.asset_denoms.iter().map(|d| self.reserve(d)).collect()
+    }
+    pub fn decimals_of(&self, denom: &str) -> Option<u8> {
+        self.canon_index(denom).map(|i| self.info.asset_decimals[i])
+    }
     pub fn is_cp(&self) -> bool {
         matches!(self.info.pool_type, pm::PoolType::ConstantProduct)
     }
